@@ -16,6 +16,7 @@ func init() {
 	vRegister("H_C20_hashenv", H_C20_hashenv)
 	vRegister("H_C20_verify", H_C20_verify)
 	vRegister("H_C20_builtin_signers", H_C20_builtin_signers)
+	vRegister("H_C20_entropy", H_C20_entropy)
 	vRegister("H_C20_builtin_empty", H_C20_builtin_empty)
 	vRegister("H_C20_encoders_refuse_empty", H_C20_encoders_refuse_empty)
 	vRegister("H_C20_sign_message", H_C20_sign_message)
@@ -277,6 +278,44 @@ func H_C20_builtin_signers() {
 	vAssert("builtin: nothing stored", len(msg.Signature) == 0)
 	out, merr := Sign1(vRand(), signer, Headers{}, vBlob("p2"), nil)
 	vAssert("builtin: Sign1 returns the error and no bytes", merr != nil && out == nil)
+	vReach("end")
+}
+
+// the entropy source itself fails (exhausted, short, device error) under a built-in signer that needs it: the
+// reader's own error comes back, nothing is stored, nothing is returned - for native keys and wrapped ones
+func H_C20_entropy() {
+	var alg Algorithm
+	var key crypto.Signer
+	switch vChoose("family", 2) {
+	case 0:
+		c := vChoose("curve", 3)
+		alg = []Algorithm{AlgorithmES256, AlgorithmES384, AlgorithmES512}[c]
+		key = vECKeyValid("ec", vCurveByIndex(c))
+	case 1:
+		alg, key = AlgorithmPS256, vRSAKeyValid("rsa")
+	}
+	if vChoose("wrapped", 2) == 1 {
+		key = &wrappedKey{inner: key}
+	}
+	signer, err := NewSigner(alg, key)
+	vAssume(err == nil)
+	rd := vFailRand(vChoose("failure", 3))
+	msg := &Sign1Message{Headers: Headers{Protected: ProtectedHeader{}, Unprotected: UnprotectedHeader{}}, Payload: vBlob("payload")}
+	serr := msg.Sign(rd, nil, signer)
+	vAssert("entropy: a failing entropy source is an error", serr != nil)
+	vAssert("entropy: the source's own error is returned", vIsRandErr(serr, rd))
+	vAssert("entropy: nothing stored", len(msg.Signature) == 0)
+	_, merr := msg.MarshalCBOR()
+	vAssert("entropy: the unsigned message cannot be serialised", merr != nil)
+	out, herr := Sign1(rd, signer, Headers{}, vBlob("p2"), nil)
+	vAssert("entropy: Sign1 returns the error and no bytes", herr != nil && out == nil)
+	// second slot of a COSE_Sign fails the same way: the call reports it and the message stays unserialisable
+	sm := &SignMessage{Headers: Headers{Protected: ProtectedHeader{}, Unprotected: UnprotectedHeader{}}, Payload: vBlob("p3"),
+		Signatures: []*Signature{{Headers: Headers{Protected: ProtectedHeader{}, Unprotected: UnprotectedHeader{}}}}}
+	smerr := sm.Sign(rd, nil, signer)
+	vAssert("entropy: COSE_Sign reports the failure", smerr != nil && vIsRandErr(smerr, rd))
+	_, smm := sm.MarshalCBOR()
+	vAssert("entropy: the half-signed COSE_Sign cannot be serialised", smm != nil)
 	vReach("end")
 }
 
